@@ -41,7 +41,13 @@ EXPLANATION = (
 )
 RULE_TEXT = ("R1: one obligation per sink whose operands carry a definite role (sinks with no role information are not counted); "
              "R2: one per helper definition / twin / registry binding / use site; R3/R4: one per structural fact.  Non-trivial = needed "
-             "role propagation, dominance or helper-algebra, not a presence test.")
+             "role propagation, dominance or helper-algebra, not a presence test.  Constructs are found by role, not by spelling: "
+             "guards are read as path conditions (dominating tests with the outcome that leads to the statement, so nested ifs, early "
+             "returns, `continue` guards, conditional expressions, negated / De-Morgan'd tests and swapped operands are alike); roles "
+             "flow into and out of private helpers of the analysed function (sinks inside an extracted helper are typed under the roles "
+             "of the call's arguments); tuples appended to a list that is only unpacked again in the same function are records, not "
+             "edges; R3 follows the expanded value through every reaching definition, conditional-expression arm and return of an "
+             "extracted helper method; R4 follows the forwarded value through locals to self.<p>.")
 ASSUMPTIONS = [
     "Naming convention as type annotation: dict keys, attributes, keywords and parameters named source_*/target_* (table in "
     "rules/_roles_util.py) denote the source/target side.  A parameter keeps the role of its name even when re-bound "
@@ -676,11 +682,18 @@ def r3_population_params(ctx, rid):
         return None
 
     def replicated(e):
-        """[x] * self.n  -> x"""
+        """[x] * self.n  /  [x for _ in range(self.n)]  /  list(repeat(x, self.n))  -> (x, count)"""
         if isinstance(e, ast.BinOp) and isinstance(e.op, ast.Mult):
             for a, b in ((e.left, e.right), (e.right, e.left)):
                 if isinstance(a, ast.List) and len(a.elts) == 1:
                     return a.elts[0], b
+        if isinstance(e, ast.ListComp) and len(e.generators) == 1 and not e.generators[0].ifs and isinstance(e.generators[0].target, ast.Name) \
+                and isinstance(e.generators[0].iter, ast.Call) and call_name(e.generators[0].iter) == "range" and len(e.generators[0].iter.args) == 1 \
+                and not any(isinstance(x, ast.Name) and x.id == e.generators[0].target.id for x in ast.walk(e.elt)):
+            return e.elt, e.generators[0].iter.args[0]
+        if isinstance(e, ast.Call) and call_name(e) == "list" and len(e.args) == 1 and isinstance(e.args[0], ast.Call) \
+                and call_name(e.args[0]) == "repeat" and len(e.args[0].args) == 2:
+            return e.args[0].args[0], e.args[0].args[1]
         return None
 
     # the loops around the expansion in apply (operator loop > variable loop)
@@ -715,6 +728,11 @@ def r3_population_params(ctx, rid):
             src = v.elts[0].value
         n_seen += 1
         if not isinstance(src, ast.Name) or pval_info(src, fi) is None:
+            uses_param = any(isinstance(x, ast.Name) and isinstance(x.ctx, ast.Load) and getattr(x, "_parent", None) is not None
+                             and pval_info(x, fi) is not None for x in ast.walk(v))
+            if not uses_param:
+                raise AnalysisError(f"{rid}: cannot classify the value `{what}` of the expanded variable (neither replicated nor the user's "
+                                    f"sequence; unrecognised form)")
             ctx.violation(rid, fi, d, f"the per-unit branch builds the value as `{norm(v)}`, which is not the user's sequence taken element by element in "
                                       f"order: unit i would not receive params[...][i]", label=f"per-unit: {norm(d)}")
             continue
